@@ -29,6 +29,12 @@ use worterbuch_common::{
     SYSTEM_TOPIC_ROOT_PREFIX, SYSTEM_TOPIC_STORE, ValueEntry, topic,
 };
 
+#[cfg(feature = "verif")]
+pub(crate) use json::{
+    load as verif_json_load, synchronous as verif_json_synchronous,
+    verif_asynchronous as verif_json_asynchronous,
+};
+
 pub const TIMESTAMP_FILE_NAME: &str = "last-persisted";
 
 lazy_static! {
